@@ -53,6 +53,10 @@ SPEC = dict(
          'exec bit / vanished / 2 s timeout / healthy) and healthy afterwards, then every curve is evaluated, the sensor polled '
          'three times through updateSensor and the curves evaluated again; every step under a watchdog, a panic anywhere is '
          'the observation crash (steps are api-6 cases: completes within the bound, never panics). '
+         'Text file busy: the harness keeps the root-owned script open for writing (O_CLOEXEC) while it is started, through '
+         'SafeCmdExecution and every wrapper: an error at once. Multi-byte and invalid UTF-8 (a-umlaut x100..250, Japanese, '
+         'emoji, 0xff runs, truncated sequences; 199/200/201-byte boundaries) as stderr of a failing command and as unparsable '
+         'output, through SafeCmdExecution and every wrapper. '
          'Both drivers run in a fake desktop session: DISPLAY=:77, fake who / id / sudo / notify-send first in $PATH with a '
          'notification pipeline that takes 3 s, so a call that sends a desktop notification on an error path of command '
          'execution exceeds timeout + margin (on the unchanged tree none is sent: notify_calls stays empty).',
